@@ -94,8 +94,9 @@ def run_one(case, ctx):
                                           f"directory {doid} withheld after a failed file but not in result.failed"))
         # retry completes the destination
         if o.via_push and len(o.push_counts) == 2 and not o.trusting_stale_index:
-            src_has = set(o.bytes) - o.src_removed
+            src_has = set(o.bytes) - o.src_removed - (o.corrupted if case["verify"] else set())
             excused = {doid for doid, kids in o.dir_children.items() if kids - src_has - set(o.dst_final)}
+            excused |= o.corrupted if case["verify"] else set()  # rejected by verification on every attempt
             if o.push_counts[1][1] and not (excused & o.requested):
                 viols.append(Viol("retry-failed", f"fault-free retry push reported {o.push_counts[1][1]} failures"))
             for oid in sorted(o.requested_expanded):
@@ -110,9 +111,10 @@ def run_one(case, ctx):
             if lost and o.push_counts[0][1] == 0:
                 viols.append(Viol("push-failure-unreported", f"uploads of {lost} failed but push() reported 0 failed"))
         if o.retry is not None and not o.trusting_stale_index:
-            src_has = set(o.bytes) - o.src_removed
+            src_has = set(o.bytes) - o.src_removed - (o.corrupted if case["verify"] else set())
             # a directory with a file missing on both sides is legitimately withheld (and reported failed)
             excused = {doid for doid, kids in o.dir_children.items() if kids - src_has - set(o.dst_final)}
+            excused |= o.corrupted if case["verify"] else set()  # rejected by verification on every attempt
             bad = sorted({h.value for h in o.retry.failed} - excused)
             if bad:
                 viols.append(Viol("retry-failed", f"fault-free retry reported failures {bad}"))
@@ -148,12 +150,12 @@ def run_one(case, ctx):
 
 
 def run(ctx):
-    ok = ctx.run_given(xfer.cases(closed_only=True, allow_verify=False), run_case, ctx.n(quick=150, thorough=2500))
+    ok = ctx.run_given(xfer.cases(closed_only=True, allow_verify=True), run_case, ctx.n(quick=150, thorough=2500))
     if ok and not ctx.over_budget():
         # enumerated arm: complete plan space (single + pair failures, every abort point) per scenario
         from hypothesis import strategies as st
 
-        enum = xfer.cases(closed_only=True, allow_verify=False).map(lambda c: dict(c, enumerate=True, jobs=1))
+        enum = xfer.cases(closed_only=True, allow_verify=True).map(lambda c: dict(c, enumerate=True, jobs=1))
         ctx.run_given(enum, run_case, ctx.n(quick=8, thorough=150))
 
 
